@@ -1157,7 +1157,7 @@ before `let state = self.slot_state(slot);#1`
         let ghost bef = *self;
 before `if !state.is_skip_certified() {`
         let ghost fin = *state;
-before `break;`
+after `if !state.is_skip_certified() {`
         proof { lemma_frame(bef, *self, slot, fin); }
 blockend `if !state.is_skip_certified() {`
         proof { lemma_frame(bef, *self, slot, fin); }
